@@ -67,3 +67,10 @@ CLAIMED["C13"] = ("edge-cut with disjunctive accept sets over the HTLC verifier 
   "optional signature threshold}, that every SIG_ALL output of an HTLC passes the preimage and signature facts, that the nut11/nut14 helpers "
   "hash what the mint verifies and the can-sign scan is existential, plus the rules shared with C12. The truth table itself is not claimed.",
   TRUST, "DESIGN.md §3 C13")
+CLAIMED["C08"] = ("type screening of marshalled request types + provenance taint analysis with sanitiser summaries and caller chaining",
+  "Decides that no request type sent by the wallet's network layer has a position for a private key, an output secret or a blinding factor "
+  "other than Proof.DLEQ of input proofs, and that at every swap/melt send the Inputs value is DLEQ-free on all paths (sanitiser summary over a "
+  "whole-range loop on all returns, literal lists, or clean at every caller). Right level: 'every byte of every request body on every wallet "
+  "path' reduces to the static type of what is marshalled plus the all-path provenance of the one field that can carry r; side channels are "
+  "not claimed.",
+  TRUST, "DESIGN.md §3 C08")
